@@ -31,7 +31,7 @@ import z3
 from pyvc import h5model, models, npmodel, fsghost   # noqa: F401
 from pyvc.contract import Contract
 from pyvc.engine import LoopSpec, NS, PyRaise
-from pyvc.sym import SObj, SOpaque, Elem, wrap
+from pyvc.sym import SObj, SOpaque, Elem, wrap, to_z3
 
 CLI = "dclab/cli/"
 COMMON = CLI + "common.py"
@@ -788,3 +788,131 @@ def extra_checks(run):
                                    "violations": viol[:40]}, indent=1))
         print("  native fault injection: " + viol[0][:300])
         run.violations.append(f"VIOLATION property=C10 replay={fn.relative_to(HERE)}")
+
+
+# --------------------------------------------------------------------------
+# split with an arbitrary number of parts (loop invariants instead of unrolling)
+# --------------------------------------------------------------------------
+IS_TMP = z3.Function("is_temporary_name", Elem, z3.BoolSort())
+IS_OUT = z3.Function("is_requested_output", Elem, z3.BoolSort())
+IS_IN = z3.Function("is_input", Elem, z3.BoolSort())
+
+
+def _tok(o):
+    return z3.Const(f"obj!{o.uid}", Elem)
+
+
+class SplitSpec(Spec):
+    """roles of the paths split() builds: '<out>/<stem>_%04d.rtdc' is a requested output,
+    the same with suffix '.rtdc~' its temporary name; neither can be the input
+    '<stem>.rtdc' (the stem is followed by '_NNNN').  Paths held in lists are opaque
+    values whose roles are the predicates IS_TMP / IS_OUT / IS_IN."""
+
+    def structural(self, p):
+        suf = p.fields.get("suffix")
+        name = p.fields.get("name")
+        named = isinstance(name, models.SFmt) and len(name.parts) >= 3 and name.parts[0].endswith("_") \
+            and isinstance(name.parts[-1], str) and name.parts[-1] == ".rtdc"
+        is_tmp = suf == ".rtdc~" and named
+        is_out = suf is None and named
+        return is_tmp, is_out
+
+    def role_sym(self, ctx, path):
+        is_tmp, is_out = self.structural(path)
+        return z3.BoolVal(False), z3.BoolVal(bool(is_out)), z3.BoolVal(bool(is_tmp))
+
+    def role(self, ctx, path):
+        if isinstance(path, SOpaque):
+            return IS_IN(path.e), IS_OUT(path.e), IS_TMP(path.e)
+        return super().role(ctx, path)
+
+    def show(self, path):
+        if isinstance(path, SOpaque):
+            return f"<{path.e}>"
+        if isinstance(path, SObj):
+            return f"<part{'~' if path.fields.get('suffix') == '.rtdc~' else ''}>"
+        return super().show(path)
+
+
+def _pathlib_path(interp, p=".", *more):
+    """pathlib.Path(x) of a path value that is already a (symbolic) path"""
+    import pathlib as _pl
+    if isinstance(p, (SObj, SOpaque)) and not more:
+        return p
+    return _pl.Path(p, *more)
+
+
+models._MODELS[pathlib.Path] = _pathlib_path
+
+
+class SplitAnyCount(Contract):
+    """split(path_in, path_out, split_events) for any number of events and any split size:
+    every write-capable operation targets a temporary name, every rename publishes a
+    closed, completely written part and happens after all writing, the input is only read --
+    by loop invariants over the lists of part names (their entries are temporary names /
+    requested outputs, never the input) and over the ghost file-system state."""
+    path = CLI + "task_split.py"
+    module = "dclab.cli.task_split"
+    qualname = "split"
+    name = "split[any number of parts]"
+    params = Split.params
+
+    def __init__(self):
+        self.pin = pathlib.Path("/data/in.rtdc")
+        self.tags = {os.fspath(self.pin): "a"}
+        self.fs_spec = SplitSpec([self.pin], [])
+        super().__init__()
+        self.inline = set(WRITER_CLASS["inline"])
+        self.classes = dict(WRITER_CLASS["classes"])
+        self.class_modules = dict(WRITER_CLASS["class_modules"])
+        self.callees = dict(WRITER_METHODS)
+        self.callees.update({"get_command_log": GET_COMMAND_LOG, "assemble_warnings": ASSEMBLE_WARNINGS,
+                             "new_dataset": DataSets(), "Config.__getitem__": ConfigGetitem(),
+                             "skip_empty_image_events": SKIP_EMPTY})
+        fresh = self.fresh_list
+        self.loops = {
+            "ii in range(num_files)": LoopSpec(inv=self.inv1, kinds={"paths_gen": fresh, "paths_temp": fresh}),
+            "(ii, pt) in enumerate(paths_temp)": LoopSpec(inv=lambda ctx, v: fsghost.stable_inv(ctx, "log loop")),
+            "(pt, pp) in zip(paths_temp, paths_gen)": LoopSpec(inv=lambda ctx, v: fsghost.stable_inv(ctx, "rename loop")),
+        }
+
+    @staticmethod
+    def fresh_list(ctx):
+        lst = ctx.arr("paths", "elem")
+        lst.is_list = True
+        lst.elem_pytype = "path"
+        return lst
+
+    def on_sympath(self, ctx, o):
+        is_tmp, is_out = self.fs_spec.structural(o)
+        t = _tok(o)
+        ctx.assume(z3.And(IS_TMP(t) == z3.BoolVal(bool(is_tmp)), IS_OUT(t) == z3.BoolVal(bool(is_out)), z3.Not(IS_IN(t))))
+
+    def inputs(self, ctx):
+        return {"path_in": self.pin, "path_out": pathlib.Path("/parts"), "split_events": ctx.int("split_events", lo=1, inp=True),
+                "skip_initial_empty_image": ctx.bool("skip_initial", inp=True),
+                "skip_final_empty_image": ctx.bool("skip_final", inp=True), "ret_out_paths": False, "verbose": False}
+
+    def roles(self, lst, n, tmp):
+        j = z3.Int("j!sp")
+        if isinstance(lst, list):
+            return z3.BoolVal(len(lst) == 0)
+        e = lst.sel(j)
+        body = z3.And(IS_TMP(e), z3.Not(IS_IN(e)), z3.Not(IS_OUT(e))) if tmp else z3.And(IS_OUT(e), z3.Not(IS_IN(e)), z3.Not(IS_TMP(e)))
+        return z3.And(lst.n == n, z3.ForAll([j], z3.Implies(z3.And(j >= 0, j < n), body)))
+
+    def inv1(self, ctx, v):
+        it = to_z3(v.it)
+        return [("every name collected so far is a temporary name (paths_temp) / a requested output (paths_gen), none is the input",
+                 z3.And(self.roles(v.paths_temp, it, True), self.roles(v.paths_gen, it, False)))] \
+            + fsghost.stable_inv(ctx, "export loop")
+
+    def ensures(self, ctx, old, a, result):
+        g = fsghost.ghost_of(ctx)
+        return [("a normal return leaves no handle open and has swallowed no failed operation",
+                 z3.BoolVal(not g.handles and not g.faults))]
+
+    exceptional = Task.exceptional
+
+
+UNITS += [SplitAnyCount()]
